@@ -332,4 +332,132 @@ theorem gcB3_spec {S : Nat → Bool} {k m wb tmp ub finalN : Nat} {srt : Bool} {
     intro g'' h'' ⟨p, hle, sb⟩
     exact ⟨p, hle, sb⟩
 
+
+theorem gcB2_spec {S : Nat → Bool} {k m wb tmp ub finalN : Nat} {srt : Bool} {f : Nat} (hm2 : 2 ≤ m)
+    (h64 : finalN < 2 ^ 64) (hub : ub = ubOnNumLevels finalN) (hS : S wb = true)
+    (ih : ∀ cl g h, GCInv k m wb tmp ub finalN h cl g →
+      SafeF S h (generalCompressLoop k m wb srt f cl g h) (GCQ k m wb tmp ub g h))
+    {cl : Nat} {g : GcState} {h h1 : Heap} (inv : GCInv k m wb tmp ub finalN h cl g) {IL' OL' : List Nat}
+    (ext : ILExt tmp cl g IL') (hlenO : OL'.length = ub + 2) {odd adjPop : Nat}
+    (hOsame : ∀ l, l ≠ cl + 1 → OL'.getD l 0 = g.outLevels.getD l 0)
+    (hOnew : OL'.getD (cl + 1) 0 = g.outLevels.getD cl 0 + odd) (ho : odd ≤ 1)
+    (hadj : g.inLevels.getD cl 0 + odd + adjPop = g.inLevels.getD (cl + 1) 0) (hev : adjPop % 2 = 0)
+    (hp2 : 2 ≤ adjPop) (hfull : ¬ g.curItemCount < g.target)
+    (hc1 : HasCells h1 wb tmp)
+    (l1 : LiveOn h1 wb 0 (g.outLevels.getD cl 0 + odd))
+    (nr : NonRawOn h1 wb (g.outLevels.getD cl 0 + odd) (g.inLevels.getD cl 0 + odd))
+    (l2 : LiveOn h1 wb (g.inLevels.getD cl 0 + odd) tmp) :
+    SafeF S h1 (gcB2 k m wb srt f cl g IL' OL' (g.inLevels.getD (cl + 1) 0) (g.inLevels.getD cl 0 + odd) adjPop
+        (IL'.getD (cl + 2) 0 - g.inLevels.getD (cl + 1) 0) h1)
+      (fun g' h' => GCPost k m wb tmp ub h' g' ∧ g.curNumLevels ≤ g'.curNumLevels ∧
+        SameBut h1 h' (fun b' _ => b' = wb)) := by
+  have hcl := inv.hcl
+  have hoi := inv.oi
+  -- the entry above level `cl + 1`
+  have htop : g.inLevels.getD (cl + 1) 0 ≤ IL'.getD (cl + 2) 0 ∧ IL'.getD (cl + 2) 0 ≤ tmp := by
+    by_cases e : cl = g.curNumLevels - 1
+    · have e1 : cl + 2 = g.curNumLevels + 1 := by omega
+      have e2 : cl + 1 = g.curNumLevels := by omega
+      rw [e1, ext.top e, e2, inv.inTop]; omega
+    · rw [ext.same (cl + 2) (by omega)]
+      refine ⟨inv.inMono (cl + 1) (by omega) (by omega), ?_⟩
+      have := mono_chain inv.inMono g.curNumLevels (cl + 2) (by omega) (by omega) (Nat.le_refl _)
+      rw [inv.inTop] at this; exact this
+  unfold gcB2
+  have hcoin := nextCoin_le g.coins
+  cases hnc : nextCoin g.coins with
+  | mk coin coins' =>
+  rw [hnc] at hcoin
+  simp only at hcoin ⊢
+  generalize hab : g.inLevels.getD cl 0 + odd = adjBeg at *
+  generalize hrl : g.inLevels.getD (cl + 1) 0 = rawLim at *
+  generalize htp : IL'.getD (cl + 2) 0 = top at *
+  have fin : ∀ h2, SameBut h1 h2 (fun b' j => b' = wb ∧ adjBeg ≤ j ∧ j < top) →
+      NonRawOn h2 wb adjBeg (adjBeg + adjPop / 2) → LiveOn h2 wb (adjBeg + adjPop / 2) top →
+      SafeF S h2 (gcB3 k m wb srt f cl g IL' OL' (adjPop / 2) coins' h2)
+        (fun g' h' => GCPost k m wb tmp ub h' g' ∧ g.curNumLevels ≤ g'.curNumLevels ∧
+          SameBut h1 h' (fun b' _ => b' = wb)) := by
+    intro h2 sb2 nr2 lv2
+    have r := gcB3_spec (S := S) hm2 h64 hub ih inv ext hlenO (odd := odd) (half := adjPop / 2) coins' hOsame hOnew
+      (by rw [hrl]; omega) (by omega) ho hfull (sb2.cells _ _ hc1)
+      (fun j h1' h2' => by rw [sb2.st _ _ (fun x => by omega)]; exact l1 j h1' h2')
+      (fun j h1' h2' => by
+        rw [hab] at h2'
+        by_cases e : j < adjBeg
+        · rw [sb2.st _ _ (fun x => by omega)]; exact nr j h1' e
+        · exact nr2 j (by omega) h2')
+      (fun j h1' h2' => by
+        rw [hab] at h1'
+        by_cases e : j < top
+        · exact lv2 j h1' e
+        · rw [sb2.st _ _ (fun x => by omega)]; exact l2 j (by omega) h2')
+    refine r.mono ?_
+    intro g' h' ⟨p, hle, sb'⟩
+    exact ⟨p, hle, (sb2.mono (fun _ _ x => x.1)).trans sb' (fun _ _ x => x) (fun _ _ x => x)⟩
+  have hlseg : LiveOn h1 wb adjBeg (adjBeg + adjPop) := fun j h1' h2' => l2 j h1' (by omega)
+  by_cases hpa : top - rawLim = 0
+  · rw [if_pos hpa]
+    have et : top = rawLim := by omega
+    subst et
+    apply vstep_halveUp hc1 (by omega) hlseg hcoin hS
+    intro h2 sb2 lv2 n2
+    exact fin h2 (sb2.mono (fun _ _ x => ⟨x.1, x.2.1, by omega⟩)) n2 (by rw [← hadj]; exact lv2)
+  · rw [if_neg hpa]
+    apply vstep_halveDown hc1 (by omega) hlseg hcoin hS
+    intro h2 sb2 lv2 n2
+    have e1 : rawLim = adjBeg + 2 * (adjPop / 2) := by omega
+    have e2 : adjBeg + adjPop = adjBeg + 2 * (adjPop / 2) := by omega
+    rw [e2] at n2
+    have key : mergeInPlace wb adjBeg (adjPop / 2) rawLim (top - rawLim) (adjBeg + adjPop / 2) =
+        mergeInPlace wb adjBeg (adjPop / 2) (adjBeg + 2 * (adjPop / 2)) (top - rawLim) (adjBeg + adjPop / 2) := by
+      rw [← e1]
+    rw [key]
+    apply vstep_mergeInPlace (lenB := top - rawLim) (sb2.cells _ _ hc1) (by omega) lv2
+      (fun j h1' h2' => by rw [sb2.st _ _ (fun x => by omega)]; exact l2 j (by omega) (by omega)) n2 hS
+    intro h3 sb3 lv3 n3
+    have e3 : adjBeg + 2 * (adjPop / 2) + (top - rawLim) = top := by omega
+    rw [e3] at sb3 lv3
+    exact fin h3 ((sb2.mono (fun _ _ x => ⟨x.1, x.2.1, by omega⟩)).trans sb3 (fun _ _ x => x) (fun _ _ x => x)) n3 lv3
+
+theorem gcB1_spec {S : Nat → Bool} {k m wb tmp ub finalN : Nat} {srt : Bool} {f : Nat} (hm2 : 2 ≤ m)
+    (h64 : finalN < 2 ^ 64) (hub : ub = ubOnNumLevels finalN) (hS : S wb = true)
+    (ih : ∀ cl g h, GCInv k m wb tmp ub finalN h cl g →
+      SafeF S h (generalCompressLoop k m wb srt f cl g h) (GCQ k m wb tmp ub g h))
+    {cl : Nat} {g : GcState} {h h1 : Heap} (inv : GCInv k m wb tmp ub finalN h cl g) {IL' OL' : List Nat}
+    (ext : ILExt tmp cl g IL') (hlenO : OL'.length = ub + 2) {odd adjPop : Nat}
+    (hOsame : ∀ l, l ≠ cl + 1 → OL'.getD l 0 = g.outLevels.getD l 0)
+    (hOnew : OL'.getD (cl + 1) 0 = g.outLevels.getD cl 0 + odd) (ho : odd ≤ 1)
+    (hadj : g.inLevels.getD cl 0 + odd + adjPop = g.inLevels.getD (cl + 1) 0) (hev : adjPop % 2 = 0)
+    (hp2 : 2 ≤ adjPop) (hfull : ¬ g.curItemCount < g.target)
+    (hc1 : HasCells h1 wb tmp)
+    (l1 : LiveOn h1 wb 0 (g.outLevels.getD cl 0 + odd))
+    (nr : NonRawOn h1 wb (g.outLevels.getD cl 0 + odd) (g.inLevels.getD cl 0 + odd))
+    (l2 : LiveOn h1 wb (g.inLevels.getD cl 0 + odd) tmp) :
+    SafeF S h1 (gcB1 k m wb srt f cl g IL' OL' (g.inLevels.getD (cl + 1) 0) (g.inLevels.getD cl 0 + odd) adjPop
+        (IL'.getD (cl + 2) 0 - g.inLevels.getD (cl + 1) 0) h1)
+      (fun g' h' => GCPost k m wb tmp ub h' g' ∧ g.curNumLevels ≤ g'.curNumLevels ∧
+        SameBut h1 h' (fun b' _ => b' = wb)) := by
+  have hcl := inv.hcl
+  have hlim : g.inLevels.getD (cl + 1) 0 ≤ tmp := by
+    have := mono_chain inv.inMono g.curNumLevels (cl + 1) (by omega) (by omega) (Nat.le_refl _)
+    rw [inv.inTop] at this; exact this
+  unfold gcB1
+  by_cases hsort : cl = 0 ∧ (!srt) = true
+  · rw [if_pos hsort]
+    apply vstep_sortRange hc1 (by omega : g.inLevels.getD cl 0 + odd + adjPop ≤ tmp)
+      (fun j h1' h2' => l2 j h1' (by omega)) hS
+    intro h2 sb2 hl2
+    have r := gcB2_spec (S := S) hm2 h64 hub hS ih inv ext hlenO hOsame hOnew ho hadj hev hp2 hfull (sb2.cells _ _ hc1)
+      (fun j h1' h2' => by rw [sb2.st _ _ (fun x => by have := inv.oi; omega)]; exact l1 j h1' h2')
+      (fun j h1' h2' => by rw [sb2.st _ _ (fun x => by omega)]; exact nr j h1' h2')
+      (fun j h1' h2' => by
+        by_cases e : j < g.inLevels.getD cl 0 + odd + adjPop
+        · exact hl2 j h1' e
+        · rw [sb2.st _ _ (fun x => e x.2.2)]; exact l2 j h1' h2')
+    refine r.mono ?_
+    intro g' h' ⟨p, hle, sb'⟩
+    exact ⟨p, hle, (sb2.mono (fun _ _ x => x.1)).trans sb' (fun _ _ x => x) (fun _ _ x => x)⟩
+  · rw [if_neg hsort]
+    exact gcB2_spec (S := S) hm2 h64 hub hS ih inv ext hlenO hOsame hOnew ho hadj hev hp2 hfull hc1 l1 nr l2
+
 end DS.Life.Kll
